@@ -926,3 +926,42 @@ def driver_feeds_until_done(ctx, rule, area, fn, what):
         elif not suspended and ends and ends[-1][0] in ("end", "continue"):
             bad = "%s feeds again although the tokenizer is done" % what
     ctx.ob(rule, "driver-feeds-until-done/%s" % what, bad is None and n >= 2, bad or "%d paths: feed again after a suspension, stop on Done" % n, what)
+
+
+def run_maps_step_results(ctx, rule, which):
+    """run(): whatever step() answers is passed on unchanged, in both the plain and the profiling loop - Continue goes on, Suspend
+    answers Done, Script(x) answers Script(x), EncodingIndicator(x) answers EncodingIndicator(x).  A pause reported as Done makes
+    the caller believe the queue is empty"""
+    T = ctx.tables(which)
+    rows = T["helpers"].get("run")
+    if not rows:
+        raise AnchorMissing("run not tabulated (%s)" % which)
+    U = {"Continue", "Suspend", "Script", "EncodingIndicator"} if which == "html" else {"Continue", "Done", "Suspend", "Script"}
+    bad = None
+    seen = set()
+    for pc in rows:
+        S = set(U)
+        tested = False
+        for k, v in pc["guards"].items():
+            m = re.match(r"self\.step\(.*\) matches (.*)$", re.sub(r"#\d+$", "", k))
+            if not m:
+                continue
+            tested = True
+            alts = {a.split("(")[0] for a in m.group(1).split("|")}
+            if "_" in alts:
+                alts = set(U)
+            S = S & alts if v else S - alts
+        if not tested or not S:
+            continue
+        ret = str(pc["ret"])
+        for r in S:
+            seen.add(r)
+            if r == "Continue":
+                ok = ret == "()"
+            elif r in ("Suspend", "Done"):
+                ok = ret == "Done"
+            else:
+                ok = re.fullmatch(r"%s\(self\.step\(.*\)\.0\)" % r, ret) is not None
+            if not ok:
+                bad = "when step() answers %s run() answers %s%s" % (r, ret, " (profiling loop)" if any(v and "profile" in g for g, v in pc["guards"].items()) else "")
+    ctx.ob(rule, "run-passes-step-results-on/%s" % which, bad is None and len(seen) >= 3, bad or "Continue / Suspend / Script / EncodingIndicator each passed on unchanged, in every loop", "%s tokenizer run" % which)
